@@ -11,11 +11,8 @@ open SJ SJ.Gen SJ.Model SJ.Model.Machine SJ.Proofs.Sound
 open SJ.Spec.Grammar (StrItem StrWF strBytes Ws isHex isUnescaped)
 open SJ.Spec.Denote (decodeItems)
 open SJ.Spec.PrivateToken (LexSt LMode lexStep lexRun parseItems)
-open SJ.Spec.PrivateTokenRv (rawHitStep rawScan hasRawTokenFirstKey bodyIsRawToken)
+open SJ.Spec.PrivateTokenRv (rawHitStep rawScan hasRawTokenFirstKey bodyIsRawToken isRawTokenKey)
 open SJ.Proofs.MachineAp (lexRun_cons lexRun_append lex_str_plain lex_str_bs lex_str_escaped hex_plain lex_quote lexRun_ws)
-
-/-- the key's items decode to the raw token -/
-def isRawTokenKey (k : List StrItem) : Bool := decodeItems k == some SJ.Spec.PrivateTokenRv.token
 
 theorem rawScan_append : ∀ (xs ys : Bytes) (l : LexSt) (hit : Bool),
     rawScan l hit (xs ++ ys) = rawScan (lexRun l xs) (rawScan l hit xs) ys
